@@ -967,6 +967,7 @@ func describeFactForUser(fn *ssa.Function, f Fact) string {
 // a field that is (1) set to a non-nil value by every function that
 // allocates the struct and (2) never stored with a possibly-nil value.
 func (c *Ctx) ruleInv() {
+	defer c.ruleIndexLemma()
 	type inv struct{ strct, field string }
 	invs := []inv{{"condition", "cfg"}, {"nodeConfig", "log"}}
 	// start without the invariants, prove them, then enable
